@@ -372,9 +372,10 @@ Definition v_exists (k : vkind) (idx : vindex) (p : path) : bool :=
   | Some v => if v_isdir v then match b_readdir k idx p with None => false | Some _ => true end else true
   end.
 
-(* the state of a tar view: paths whose (shared) reader has already been drained *)
+(* view state: kept for the interface of view_step / view_run.  Since tarfs.go rewindingTarFs (Open / OpenFile hand out
+   handles positioned at the start of the file) a read-to-the-end through a fresh handle no longer depends on earlier
+   reads, on the tar view either: no accessor changes the state. *)
 Definition vstate := list path.
-Definition drained (st : vstate) (p : path) : bool := existsb (path_eqb p) st.
 
 Definition view_step (k : vkind) (idx : vindex) (st : vstate) (o : vop) (p : path) : vobs * vstate :=
   match o with
@@ -392,11 +393,7 @@ Definition view_step (k : vkind) (idx : vindex) (st : vstate) (o : vop) (p : pat
   | OpRead => match b_stat k idx p with                                     (* files.go:335-401, safeio.ReadAtMost *)
               | None => (VNotFound, st)
               | Some v => if v_isdir v then (VOtherErr, st)
-                          else match k with
-                               | VZip => (match v_data v with [] => VEmptyErr | d => VData d end, st)
-                               | VTar => if drained st p then (VEmptyErr, st)
-                                         else (match v_data v with [] => VEmptyErr | d => VData d end, p :: st)
-                               end
+                          else (match v_data v with [] => VEmptyErr | d => VData d end, st)   (* zip and tar alike *)
               end
   end.
 
